@@ -579,13 +579,13 @@ def _enumerate(world, plan, cmd, op, out_rel, cp, reh_events, stats, bump):
 # ------------------------------------------------------------------------------ runner interface
 def plan(tier, seed, scale=1.0):
     n_workers = 16
-    per = int({"quick": 28, "thorough": 700}[tier] * scale)
+    per = int({"quick": 28, "thorough": 220}[tier] * scale)
     return [{"seed": seed * 1000 + w, "n": per, "tier": tier} for w in range(n_workers)]
 
 
 def work(task):
     known = load_known(ID)
-    strat = plans(enum_every=5 if task["tier"] == "quick" else 2, enum_cap=30 if task["tier"] == "quick" else None)
+    strat = plans(enum_every=5 if task["tier"] == "quick" else 3, enum_cap=30 if task["tier"] == "quick" else 90)
     out = explore(strat, simulate, task["seed"], task["n"], known, batch=14 if task["tier"] == "quick" else 50)
     for v in out["violations"]:
         if v.get("final"):
